@@ -43,7 +43,7 @@ func runMain(seed uint64, tier, out, replay string) int {
 	distinct := vh.Distinct{}
 	if only == "" || only == "echo-hand" {
 		srv := newHandServer(c)
-		per := 150
+		per := 400
 		if tier == "thorough" {
 			per = 600
 		}
@@ -74,7 +74,7 @@ func runMain(seed uint64, tier, out, replay string) int {
 // server, sent to the server compiled from the code generated for the "store" design.
 func echoMain(seed uint64, tier, addr, out string) int {
 	n, _ := tierParams(tier)
-	per := 150
+	per := 400
 	if tier == "thorough" {
 		per = 600
 	}
